@@ -213,6 +213,12 @@ def run(chk):
         chk.search_cases += 1
         if got_t != sorted(ts) or any(ts[s] != t for t, s in zip(got_t, got_s)) or sorted(got_s) != list(range(k)):
             chk.fail("dynamics-unsorted", "Dynamics.add: times not sorted or a state detached from its time", {"times": ts})
+        # derived read-outs stay aligned with the times: expectations(op)[k] = Tr(op rho(t_k)), also for the trace (op = None)
+        et, ev = dyn.expectations(np.array([[3.0]]))
+        tt, tv = dyn.expectations()
+        if list(et) != list(dyn.times) or [int(round(x.real / 3)) for x in ev] != got_s or list(tt) != list(dyn.times) \
+                or [int(round(x.real)) for x in tv] != got_s:
+            chk.fail("expectations-misaligned", "Dynamics.expectations: values are not Tr(op rho(t_k)) at the returned times", {"times": ts})
         pairs = coq_list([f"({zlit(t)}, {j})" for j, t in enumerate(ts)])
         add(f"let d := dyn_of Z Z Z.leb {pairs} in fst d ++ snd d", got_t + got_s, {"kind": "Dynamics.add", "times": ts},
             ("dyn", tuple(ts)))
